@@ -1,2 +1,32 @@
-From HV Require Import Model.Ref.
-Theorem C08_tmp : True. Proof. exact I. Qed.
+(* C08 - value completion offers only what fits: visible declarations, conforming values.
+   Model: Model/Ref.v (Targets.MatchWalk, localTargetMatches, absTargetMatches, containsMatch,
+   Target.Address), compared with the exported functions on every run. *)
+From Coq Require Import String List ZArith Bool.
+From HV Require Import Base.Pos Model.Addr Model.Schema Model.Ref Proofs.RefProofs.
+
+(* every declaration the completion walk offers is offered through its local or absolute address *)
+Theorem C08_offered_targets_match : forall conv self_active ref_scope ref_type prefix outer_body origin_rng fuel ts t,
+  In t (match_walk conv self_active ref_scope ref_type prefix outer_body origin_rng fuel ts) ->
+  exists cm, local_target_matches conv self_active ref_scope ref_type prefix origin_rng cm t = true \/
+             abs_target_matches conv ref_scope ref_type prefix outer_body cm t = true.
+Proof. exact match_walk_sound. Qed.
+Print Assumptions C08_offered_targets_match.
+
+(* through the local address: starts with the typed text; self.* only where enabled; only where
+   the block-local name is visible from *)
+Theorem C08_local_candidates_visible : forall conv self_active ref_scope ref_type prefix origin_rng cm t,
+  local_target_matches conv self_active ref_scope ref_type prefix origin_rng cm t = true ->
+  String.prefix prefix (addr_string (t_local t)) = true /\
+  (first_is_self (t_local t) = true -> self_active = true) /\
+  (forall fr, t_from t = Some fr -> range_overlaps fr origin_rng = true).
+Proof. exact local_match_implies. Qed.
+Print Assumptions C08_local_candidates_visible.
+
+(* through the absolute address: starts with the typed text, is not a field of the block being
+   edited, and fits the expected scope/type itself or contains a nested declaration that does *)
+Theorem C08_absolute_candidates_fit : forall conv ref_scope ref_type prefix outer_body cm t,
+  abs_target_matches conv ref_scope ref_type prefix outer_body cm t = true ->
+  String.prefix prefix (addr_string (t_addr t)) = true /\ target_in_range t outer_body = false /\
+  (matches_constraint conv t ref_scope ref_type = true \/ cm = true).
+Proof. exact abs_match_implies. Qed.
+Print Assumptions C08_absolute_candidates_fit.
